@@ -279,10 +279,78 @@ def big_cases(rec, hub, rng, n_cases):
         big.judge_reduce(rec, fd, "cast_to", xs_, tgt_l, r, e, target_dims=[(d.letter, d.name, tuple(d.items)) for d in tds])
 
 
+MN = "narrow-integer-values"
+
+
+def narrow_int_cases(rec, hub, rng, n_cases):
+    """Whole numbers stored in a narrow dtype (int8 / uint8 / int16 / int32 / bool: counts, flags) whose totals leave the dtype's range
+    but are ordinary numbers: accumulations and sums are those of the NUMBERS.  Judged exactly against Python integers."""
+    fd = hub.fd
+    for k in range(n_cases):
+        U = gen.universe(fd, {"a": 3, "b": 4, "c": 2}, rng=rng)
+        la = tuple(str(q) for q in rng.permutation(list("abc"))[: int(rng.integers(1, 4))])
+        shape = gen.shape_of(U, la)
+        dt = [np.int8, np.uint8, np.int16, np.int32, np.bool_][int(rng.integers(0, 5))]
+        top = {np.int8: 127, np.uint8: 255, np.int16: 32767, np.int32: 2**31 - 1, np.bool_: 1}[dt]
+        v = rng.integers(max(1, (2 * top) // 3), top + 1, size=shape).astype(dt)  # any two of them exceed the range
+        true = np.asarray(v, dtype=object).astype(object) if dt is not np.bool_ else np.asarray(v, dtype=int).astype(object)
+        true = np.vectorize(int, otypes=[object])(np.asarray(v)) if v.size else true
+
+        def mk():
+            return fd.FlodymArray(dims=gen.dimset(fd, U, la), values=v.copy())
+
+        def judge(what, got, exp, arg):
+            rec.event(MN, sig=f"{what}|{np.dtype(dt).name}|{la}|{arg}", cls=f"narrow|{what}|{np.dtype(dt).name}", sample={"op": what, "dtype": np.dtype(dt).name, "dims": list(la), "arg": str(arg)})
+            g = np.asarray(got)
+            e = np.asarray(exp, dtype=object)
+            if g.shape != e.shape:
+                rec.violation(MN, f"{what}:shape-differs", {"dtype": np.dtype(dt).name, "got": list(g.shape), "expected": list(e.shape)})
+                return
+            same = all(float(a) == float(b) for a, b in zip(g.reshape(-1).tolist(), e.reshape(-1).tolist()))
+            if same:
+                return
+            # structural signature of the known finding: the result is the true total reduced to the operand's own narrow dtype
+            bits = np.dtype(dt).itemsize * 8
+            if dt is np.bool_:
+                wrapped = all(bool(a) == (b != 0) for a, b in zip(g.reshape(-1).tolist(), e.reshape(-1).tolist())) and g.dtype == np.bool_
+            else:
+                lo = 0 if np.dtype(dt).kind == "u" else -(2 ** (bits - 1))
+                wrapped = g.dtype == np.dtype(dt) and all(int(a) == ((int(b) - lo) % (2**bits)) + lo for a, b in zip(g.reshape(-1).tolist(), e.reshape(-1).tolist()))
+            mech = f"{what}:total-wraps-around-in-the-operand's-narrow-integer-dtype" if wrapped and what in ("sum_to", "sum_over") else f"{what}:wrong-total-for-narrow-integer-values"
+            rec.violation(MN, mech, {"dtype": np.dtype(dt).name, "dims": list(la), "arg": str(arg), "observed": [float(q) for q in g.reshape(-1)[:4]], "expected": [int(q) for q in e.reshape(-1)[:4]], "result_dtype": str(g.dtype)})
+
+        for l in la:
+            ax = la.index(l)
+            exp = np.cumsum(true, axis=ax)
+            for inplace in (False, True):
+                x = mk()
+                try:
+                    r = x.cumsum(l, inplace=inplace)
+                    judge("cumsum" + ("-inplace" if inplace else ""), (x if inplace else r).values, exp, l)
+                except Exception as e_:
+                    rec.violation(MN, "cumsum:raised", {"dtype": np.dtype(dt).name, "exc": repr(e_)[:200]})
+        x = mk()
+        try:
+            judge("sum_values", np.asarray(x.sum_values()), np.asarray(true.sum(), dtype=object), "-")
+        except Exception as e_:
+            rec.violation(MN, "sum_values:raised", {"dtype": np.dtype(dt).name, "exc": repr(e_)[:200]})
+        if len(la) >= 2:
+            keep = la[:1]
+            try:
+                judge("sum_to", mk().sum_to(keep).values, true.sum(axis=tuple(range(1, len(la)))), keep)
+                judge("sum_over", mk().sum_over(la[1:]).values, true.sum(axis=tuple(range(1, len(la)))), la[1:])
+            except Exception as e_:
+                rec.violation(MN, "sum_to:raised", {"dtype": np.dtype(dt).name, "exc": repr(e_)[:200]})
+
+
 def run(rec, hub, tier, seed, shard, nshards, budget):
     fd = hub.fd
     red.register(hub)
     rec.require("large-arrays", 5)
+    rec.require(MN, 20)
+    rec.set_case(driver="c07.narrow", seed=seed, tier=tier, shard=shard, nshards=nshards, idx=shard)
+    with hub.pause():
+        narrow_int_cases(rec, hub, case_nprng(seed, "c07.narrow", shard, 0), 12 if tier == "quick" else 40)
     rec.set_case(driver="c07.big", seed=seed, tier=tier, shard=shard, nshards=nshards, idx=shard)
     big_cases(rec, hub, case_nprng(seed, "c07.big", shard, 0), 4 if tier == "quick" else 8)
     if shard == 0:
@@ -308,6 +376,10 @@ def run(rec, hub, tier, seed, shard, nshards, budget):
 def replay(rec, hub, case):
     fd = hub.fd
     red.register(hub)
+    if case["driver"] == "c07.narrow":
+        with hub.pause():
+            narrow_int_cases(rec, hub, case_nprng(case["seed"], "c07.narrow", case.get("shard", 0), 0), 12 if case.get("tier", "quick") == "quick" else 40)
+        return
     if case["driver"] == "c07.big":
         rec.set_case(**case)
         big_cases(rec, hub, case_nprng(case["seed"], "c07.big", case.get("shard", 0), 0), 4 if case.get("tier", "quick") == "quick" else 8)
